@@ -37,7 +37,8 @@ def set_int_weights(model, seed):
 
 def build(s, copied, shift=0):
     td = s["tdim"]
-    T = tp.spaces.Rn("t", td)
+    # two trunk coordinates: every other scenario uses TWO one-dimensional variables (t1, t2) instead of one two-dimensional variable
+    T = tp.spaces.R1("t1") * tp.spaces.R1("t2") if (td == 2 and s.get("split")) else tp.spaces.Rn("t", td)
     Fv = tp.spaces.R1("f")
     U = tp.spaces.Rn("u", s["dim"])
     Fs = tp.spaces.FunctionSpace(tp.domains.Interval(tp.spaces.R1("s"), 0.0, 4.0), Fv)
@@ -61,7 +62,16 @@ def loc(lid, td):
     return [float(((lid * (j + 2)) % 5) - 2) for j in range(td)]
 
 
+def swapped(x, s):
+    """the same trunk points with the variables listed in the opposite order (t2, t1): models select their input by name"""
+    if not (s["tdim"] == 2 and s.get("split")):
+        return x
+    t = x.as_tensor
+    return Points(torch.stack([t[..., 1], t[..., 0]], dim=-1), tp.spaces.R1("t2") * tp.spaces.R1("t1"))
+
+
 def run_one(s):
+    s = dict(s, split=(s["tid"] % 2 == 0))
     torch.manual_seed(s["tid"])
     m = s["m"]
     r = watched(lambda: (build(s, True), build(s, False)))
@@ -76,6 +86,8 @@ def run_one(s):
         # (1) batches of functions x batches of locations, different compositions, different input forms
         for ci, (fids, lids, form) in enumerate(s["batches"]):
             x = Points(torch.tensor([loc(l, td) for l in lids], dtype=torch.float64), T)
+            if ci % 2 == 1:
+                x = swapped(x, s)
             fb = torch.stack([fvals(f, m) for f in fids])            # (nF, m, 1)
             if form == "tensor":
                 out = fast(x, fb)
@@ -87,6 +99,10 @@ def run_one(s):
                 out = fast(x, lambda s: a * s + b)
             elif form == "single_tensor":
                 out = fast(x, fvals(fids[0], m))
+            elif form == "funcset" and ci == 7:              # a FunctionSet with a TWO-dimensional parameter (a, b): function a * s + b
+                ab = torch.tensor([[float((k % 3) - 1), float((k * 2) % 5 - 2)] for k in fids], dtype=torch.float64)
+                ps = tp.samplers.DataSampler(Points(ab, tp.spaces.R1("a") * tp.spaces.R1("b")))
+                out = fast(x, tp.domains.CustomFunctionSet(Fs, ps, lambda a, b, s: a * s + b))
             elif form in ("funcset", "funcset_sum"):     # a FunctionSet (or a sum of two) whose parameters are the function ids
                 def mkfs(ids):
                     ps = tp.samplers.DataSampler(Points(torch.tensor([[float(k)] for k in ids], dtype=torch.float64), tp.spaces.R1("k")))
